@@ -261,7 +261,12 @@ func deleteFilteredData[T any](remoteWrite bool, existingData []T, filterData *F
 	for i := range existingData {
 		writeAllowed := writeAllowed(existingData[i])
 		if !writeAllowed && remoteWrite {
-			success = false
+			// a remote write cannot delete this item or parts of it:
+			// fail if the filter addresses it, keep it otherwise
+			if filterData.Selector == nil || filterData.SelectorMatch(util.Ptr(existingData[i])) {
+				success = false
+			}
+			result = append(result, existingData[i])
 			continue
 		}
 
